@@ -566,7 +566,8 @@ class Ctx:
             "repo": REPO,
         }
         os.makedirs(os.path.join(VERIF, "evidence"), exist_ok=True)
-        if REPO == "/repo":
+        dev_run = level == "proof" and not self.obligations      # a driver's development switch skipped the proof step
+        if REPO == "/repo" and not dev_run:
             with open(os.path.join(VERIF, "evidence", f"{self.prop}.json"), "w") as f:
                 json.dump(ev, f, indent=1, sort_keys=True, default=str)
         else:
